@@ -1,5 +1,5 @@
 #!/usr/bin/env python3
-"""Development-time helper: apply each seeded change in /verif/seeded/<id>/patch.diff to /repo, run the quick check of the
+"""Development-time helper (VERIF_SEED=<n> in the environment: run under that seed and record the outcome under "other_seeds"): apply each seeded change in /verif/seeded/<id>/patch.diff to /repo, run the quick check of the
 property it targets, undo the change, and record the outcome in seeded/<id>/meta.json ("check_result").
 usage: python tools/run_seeded.py [id ...]     (no argument: all)"""
 import glob
@@ -49,7 +49,12 @@ def main():
                "detected": c.returncode == 1 and bool(vio), "seconds": round(time.time() - t0, 1)}
         mp = os.path.join(d, "meta.json")
         meta = json.load(open(mp)) if os.path.exists(mp) else {}
-        meta["check_result"] = res
+        seed = os.environ.get("VERIF_SEED")
+        if seed:
+            res["seed"] = int(seed)
+            meta.setdefault("other_seeds", {})[seed] = {k: res[k] for k in ("exit", "violations", "detected", "no_failing_input_found")}
+        else:
+            meta["check_result"] = res
         json.dump(meta, open(mp, "w"), indent=1)
         print(mid, "DETECTED" if res["detected"] else "MISSED", "exit", c.returncode, "violations", len(vio),
               "nfi" if res["no_failing_input_found"] else "", (first or {}).get("clause") or (first or {}).get("stage"), res["seconds"], flush=True)
